@@ -284,4 +284,57 @@ def repartitionDivisions {α : Type} (key : α → Nat) (parts : List (List α))
     Option (List (List α)) :=
   (divisionsLayer a b force).bind (evalDivisions key parts)
 
+/-! ### a checkable certificate for a `RepartitionDivisions` layer
+`layerOK a b L` is a decidable property of the layer alone (no partitions involved). `Lemmas/RepartDivs.lean`
+proves that every layer that passes it keeps rows and order and yields partitions truthful for `b`, for EVERY
+frame truthful for `a`; the harness evaluates it on every layer the real `_layer()` builds. -/
+
+/-- the slices of one old partition with key range `[A, B)` (`[A, B]` when `closed`): a chain `hi = next lo`
+    of half-open slices that starts at or below `A` and ends at or beyond `B`; a slice may run backwards
+    (`lo > hi`, it selects nothing) only when it starts at or below `A` -/
+def chainOK (A B : Nat) (closed : Bool) : List Slice → Bool
+  | [] => false
+  | [s] => (decide (s.lo ≤ s.hi) || decide (s.lo ≤ A)) &&
+      (if closed then decide (B < s.hi) || (decide (B = s.hi) && s.rb) else decide (B ≤ s.hi))
+  | s :: t :: rest => (decide (s.lo ≤ s.hi) || decide (s.lo ≤ A)) && !s.rb && decide (s.hi = t.lo) &&
+      chainOK A B closed (t :: rest)
+
+def blockOK (A B : Nat) (closed : Bool) (blk : List Slice) : Bool :=
+  match blk with
+  | [] => false
+  | s :: _ => decide (s.lo ≤ A) && chainOK A B closed blk
+
+/-- the slices are the blocks of old partitions `m, m+1, …` in order -/
+def blocksOK : List (Nat × Nat) → Nat → List Slice → Bool
+  | [], _, sl => sl.isEmpty
+  | (A, B) :: rest, m, sl =>
+    blockOK A B rest.isEmpty (sl.takeWhile (·.src == m)) && blocksOK rest (m + 1) (sl.dropWhile (·.src == m))
+
+/-- piece `s` (a slice of old partition `[A, B)`, closed when `mlast`) only holds keys of the new partition
+    `[lo', hi')` (closed when `jlast`) -/
+def pieceFits (A B : Nat) (mlast : Bool) (lo' hi' : Nat) (jlast : Bool) (s : Slice) : Bool :=
+  (decide (lo' ≤ s.lo) || decide (lo' ≤ A)) &&
+  ((decide (s.hi ≤ hi') && (!s.rb || jlast || decide (s.hi < hi'))) ||
+   (decide (B ≤ hi') && (!mlast || jlast || decide (B < hi'))))
+
+def groupFits (a : List Nat) (slices : List Slice) (lo' hi' : Nat) (jlast : Bool) (ks : List Nat) : Bool :=
+  ks.all fun k =>
+    match slices[k]? with
+    | some s =>
+      (match a[s.src]?, a[s.src + 1]? with
+       | some A, some B => pieceFits A B (s.src + 2 == a.length) lo' hi' jlast s
+       | _, _ => false)
+    | none => false
+
+def groupsFit (a : List Nat) (slices : List Slice) : List (Nat × Nat) → List (List Nat) → Bool
+  | [], [] => true
+  | (lo', hi') :: rest, ks :: more => groupFits a slices lo' hi' rest.isEmpty ks && groupsFit a slices rest more
+  | _, _ => false
+
+/-- the certificate: every piece is used exactly once and in order; the slices tile the old partitions;
+    every piece fits the new partition it is assigned to -/
+def layerOK (a b : List Nat) (L : DLayer) : Bool :=
+  (L.out.flatten == List.range L.slices.length) && blocksOK (pairs a) 0 L.slices &&
+  groupsFit a L.slices (pairs b) L.out
+
 end Dask.Repart
